@@ -169,6 +169,13 @@ def check_c20(tier, seed):
             except Exception as e:  # noqa: BLE001
                 out = "raise:" + type(e).__name__
             calls.add({"f": f, "x": calls.I(x), "out": out}, {"f": f, "x": x, "out": out})
+    # what the repository's own tests asked, with the answers THEY saw
+    import world
+    n_repo = 0
+    for c in world.repo_fn_calls(["tests/test_w3c.py"]):
+        if c["f"].startswith("is_w3c"):
+            calls.add({"f": c["f"], "x": calls.I(c["x"]), "out": c["out"]}, dict(c, source="repository test"))
+            n_repo += 1
     batch, group = calls.batch(400)
     fails, st = tlc.validate_calls(batch, timeout=1200 if tier == "quick" else 3000)
     lines, violations, known, other = verdict("C20", "w3c", fails, calls, group, lambda c: {"C20"})
@@ -179,7 +186,7 @@ def check_c20(tier, seed):
            "samples": [calls.meta[0], calls.meta[len(calls.meta) // 2], calls.meta[-1]],
            "evaluations": len(calls.calls), "distinct_nontrivial": accepted,
            "rule": "evaluations = validator calls on distinct strings (every class string of the model under representative set A, a sample under set B, random longer strings, hand-picked boundary strings); distinct_nontrivial = calls the implementation ACCEPTED (the rest are rejections)",
-           "exhaustive": True, "models": [model], "strings_from_model": n_model, "call_validation": st, "other_clauses_failed": other,
+           "exhaustive": True, "models": [model], "strings_from_model": n_model, "calls_from_repository_tests": n_repo, "call_validation": st, "other_clauses_failed": other,
            "known_findings": sorted(known)}
     return {"lines": lines, "violations": violations, "coverage": cov, "wall": time.time() - t0, "assumptions": ASSUME}
 
@@ -321,6 +328,27 @@ def check_c19(tier, seed):
         sh = list(uris)
         rng.shuffle(sh)
         discover_call(calls, sh + sh[:1], delims, cutoff, meta, pre, "list")
+    # the discover calls the repository's own tests make, with the results THEY saw
+    import world
+    n_repo = 0
+
+    def intern(v):
+        if isinstance(v, str):
+            return calls.I(v)
+        if isinstance(v, list):
+            return [intern(x) for x in v]
+        if isinstance(v, dict):
+            return {k: intern(x) for k, x in v.items()}
+        return v
+    for c in world.repo_fn_calls(["tests/test_discovery.py"]):
+        if c["f"] != "discover" or len(c["uris"]) > 60:
+            continue
+        call = {"f": "discover", "uris": intern(c["uris"]), "delims": intern(c["delims"] or []), "cutoff": [] if c["cutoff"] is None else [c["cutoff"]],
+                "meta": calls.I(c["meta"] if c["meta"] is not None else "ns"), "conv": [] if c["conv"] is None else [intern(c["conv"])],
+                "out": ["ok", intern(c["result"])]}
+        calls.add(call, {"f": "discover", "uris": c["uris"], "delims": c["delims"], "cutoff": c["cutoff"], "meta": c["meta"], "pre": "from the test",
+                         "iterable": "as in the test", "source": "repository test", "uri": ""})
+        n_repo += 1
     batch, group = calls.batch(60)
     fails, st = tlc.validate_calls(batch, timeout=1200 if quick else 3400)
     lines, violations, known, other = verdict("C19", "discover", fails, calls, group, lambda c: {"C19"})
@@ -331,7 +359,7 @@ def check_c19(tier, seed):
     cov = {"states": model["distinct"], "transitions": model["generated"], "traces_validated_against_impl": len(calls.calls),
            "samples": [calls.meta[0], calls.meta[-1]], "evaluations": len(calls.calls), "distinct_nontrivial": nontriv,
            "rule": "evaluations = discover calls on the implementation (TLC-generated argument tuples under three concretisations with list/set/generator/tuple iterables and permuted+duplicated variants, plus seeded random URI multisets); distinct_nontrivial = distinct argument tuples whose result has at least one record",
-           "exhaustive": True, "models": models, "calls_from_model": n_model, "call_validation": st, "other_clauses_failed": other,
+           "exhaustive": True, "models": models, "calls_from_model": n_model, "calls_from_repository_tests": n_repo, "call_validation": st, "other_clauses_failed": other,
            "known_findings": known}
     return {"lines": lines, "violations": violations, "coverage": cov, "wall": time.time() - t0, "assumptions": ASSUME + [
         "metaprefixes do not contain the default delimiter ':' for the round-trip clause (C02/C03 quantify over prefixes without the delimiter)",
